@@ -6,7 +6,9 @@ R2  spec->code: Planted.tla prints exactly representable instances with their un
     factors / pivots / solutions / inverses and the property's own tolerance; the harness replays
     them through lapack/gonum.Implementation and lapack64 under lda / ldb / lwork / routine
     (blocked vs unblocked entry point) variation.  Sizes cross the real block sizes (32/64) and
-    the crossover point (128) of the default Ilaenv.
+    the crossover point (128) of the default Ilaenv.  PlantedX.tla adds LU at the ends of the exponent range
+    (sub-safe-minimum pivots), two-sided bounds for the condition estimators, pivoted Cholesky, QL / RQ,
+    triangular band solves, Dlauum and the norms incl. Frobenius; its lemmas are in PlantedXLemmas.tla.
 """
 import os
 
@@ -36,6 +38,19 @@ BIG = {
 }
 LEMMA = {"quick": dict(SMALL=5, BIG=[(12, 12), (9, 14)]), "thorough": dict(SMALL=8, BIG=[(20, 20), (33, 30), (14, 25)])}
 FAMS = ("lu", "chol", "qr", "qp3", "tri", "ls", "pb", "td", "aux", "larft")
+# families of PlantedX.tla (extreme-scale LU, pivoted Cholesky, QL / RQ, Dlauum, condition estimators,
+# triangular band solves, norms incl. Frobenius); shapes beyond the exhaustive small range as above
+XFAMS = ("lus", "con", "pst", "tb", "nrm", "lauum", "ql")
+XBIG = {
+    "lus": {"quick": [(66, 65), (70, 33)], "thorough": [(65, 65), (66, 65), (70, 33), (64, 70), (130, 129)]},
+    "pst": {"quick": [(70, 70), (97, 97)], "thorough": [(n, n) for n in (64, 65, 66, 97, 130)]},
+    "ql": {"quick": [(40, 35), (34, 47), (140, 130)], "thorough": [(33, 33), (40, 35), (34, 47), (65, 64), (130, 130), (140, 130), (129, 150)]},
+    "lauum": {"quick": [(70, 70), (130, 130)], "thorough": [(n, n) for n in (63, 64, 65, 66, 97, 129, 130)]},
+    "con": {"quick": [], "thorough": []},
+    "tb": {"quick": [(40, 33), (70, 3)], "thorough": [(40, 33), (70, 3), (130, 70), (90, 66)]},     # (n, kd)
+    "nrm": {"quick": [(45, 60), (70, 33)], "thorough": [(45, 60), (70, 33), (97, 96)]},
+}
+XFORCE = ("lus", "pst", "ql", "lauum")   # families whose routines choose a block size through Ilaenv
 NOFORCE = ("larft", "td", "aux")   # families without block-size dependent code
 FORCED = {"quick": [(1, 0), (2, 0), (3, 0), (4, 0), (2, 2), (3, 2)],
           "thorough": [(1, 0), (2, 0), (3, 0), (4, 0), (5, 0), (7, 0), (2, 2), (3, 2)]}
@@ -64,17 +79,25 @@ def run(ctx):
         ctx.tlc("lapack/PlantedLemmas.tla", "lapack/PlantedLemmas.cfg", name="R1 PlantedLemmas %s" % fam,
                 subst=dict(FAM=fam, SMALL=lm["SMALL"], BIG=enc(big), NRHS=2, SEED=ctx.seed), workers=4)
 
+    # one run for the lemmas of all PlantedX families (LusLemma: exactness at the ends of the exponent range,
+    # PstLemma: forced pivot order, QlLemma, LauumLemma, TbLemma, ConLemma: exact inverse, lower <= upper,
+    # kappa <= 256, no interchange, NrmLemma: perfect-square sums)
+    ctx.tlc("lapack/PlantedXLemmas.tla", "lapack/PlantedXLemmas.cfg", name="R1 PlantedXLemmas (lus pst ql lauum con tb nrm)",
+            subst=dict(FAM="xall", SMALL=lm["SMALL"], BIG=enc(lm["BIG"]), NRHS=2, SEED=ctx.seed), workers=4)
+
     # ---- R2: planted instances replayed into gonum -------------------------------------------
-    for fam in FAMS:
-        cases = ctx.gen("lapack/Planted.tla", "lapack/Planted.cfg", name="R2 gen planted %s" % fam,
-                        subst=dict(FAM=fam, SMALL=SMALL[ctx.tier], BIG=enc(BIG[fam][ctx.tier]), NRHS=3, SEED=ctx.seed))
+    for fam in FAMS + XFAMS:
+        x = fam in XFAMS
+        cases = ctx.gen("lapack/PlantedX.tla" if x else "lapack/Planted.tla", "lapack/PlantedX.cfg" if x else "lapack/Planted.cfg",
+                        name="R2 gen planted %s" % fam,
+                        subst=dict(FAM=fam, SMALL=SMALL[ctx.tier], BIG=enc((XBIG if x else BIG)[fam][ctx.tier]), NRHS=3, SEED=ctx.seed))
         for bn, _ in builds:
             ctx.replay(bins[bn], "lapack", cases, args, name="R2 replay %s [%s]" % (fam, bn))
         # the same instances with the block size / crossover forced through the verifhook.Ilaenv override:
         # the blocked code runs on every small shape, around its own block edges
-        if fam not in NOFORCE:
+        if fam in XFORCE or fam in FAMS and fam not in NOFORCE:
             for nb, nx in FORCED[ctx.tier]:
-                if fam not in ("qr", "qp3", "ls") and nx != 0:
+                if fam not in ("qr", "qp3", "ls", "ql") and nx != 0:
                     continue        # only the QR/LQ family has a crossover parameter
                 for bn, _ in builds[:1]:
                     ctx.replay(bins[bn], "lapack", cases, args + ["nb=%d" % nb, "nx=%d" % nx],
@@ -85,6 +108,9 @@ def run(ctx):
         "the harness's operand builders (scaled integer -> float64, row-major layout, transposition, canaries), "
         "the sign bookkeeping S read off the computed triangular factor (the documented freedom of QR/LQ) and the "
         "math/big.Rat comparison are trusted",
+        "condition estimators: the lower bound max(||inv(A)u||_1, 2||inv(A)b||_1/(3n)) is what DLACN2's documented "
+        "construction guarantees (first iterate, final alternating-sign stage); the rounding allowance n*2^-40 "
+        "relies on kappa <= 256, which PlantedXLemmas!ConLemma checks on every instance",
         "block sizes: the default Ilaenv (blocked paths above 32/64/128), reduced block sizes 2 and 3 selected through "
         "lwork, and nb in 1..4 (thorough ..7), nx in {0,2} forced through the verif-tagged verifhook.Ilaenv override; "
         "the override changes which path runs, never what is expected",
@@ -92,7 +118,8 @@ def run(ctx):
     return ctx.finish(
         rule="one case = one call of a gonum LAPACK routine (one routine x lda/ldb/ldc/lwork variant, or one "
              "workspace query) on one spec-generated instance, every output compared with the specification's "
-             "values; non-trivial = the instance has min(m,n) >= 2 (Dlarft: k >= 3)",
+             "values (condition estimators: rcond inside the specification's exact interval); non-trivial = the "
+             "instance has min(m,n) >= 2 (Dlarft: k >= 3; band families: also kd >= 1)",
         exhaustive=False)
 
 
